@@ -189,7 +189,7 @@ package breaker
 //@   property C01
 //@   ensures (thrCalls == old(thrCalls) && result == ctxErr[ctx]) || (thrCalls == old(thrCalls) + 1 && thrReq == req && thrFallback == nil && thrAcceptable == defaultAcceptable && result == thrResult)
 //@ func (cb *circuitBreaker) DoWithAcceptableCtx
-//@   property C01
+//@   property C01 C03
 //@   ensures (thrCalls == old(thrCalls) && result == ctxErr[ctx]) || (thrCalls == old(thrCalls) + 1 && thrReq == req && thrFallback == nil && thrAcceptable == acceptable && result == thrResult)
 //@ func (cb *circuitBreaker) DoWithFallbackCtx
 //@   property C01
